@@ -51,6 +51,9 @@ class Cfg(object):
         self.due = False
         self.per_task_rules = True
         self.work_pool = None  # override of WORK_POOL (dyadic mode)
+        self.onesided = 0  # 1 in n teams/workplaces has some links on its own side only (0 = never)
+        self.abs_p = 3  # 1 in abs_p workers (abs_p+1 facilities) has an own absence list
+        self.abs_size = 4  # max length of a per-resource absence list
         for k, v in kw.items():
             if not hasattr(self, k):
                 raise AttributeError(k)
@@ -219,7 +222,10 @@ def model_spec(draw, cfg):
     teams = []
     for i in range(n_teams):
         flags = draw(st.lists(bool3, min_size=n, max_size=n))
-        teams.append({"targets": [k for k in range(n) if flags[k]]})
+        tm = {"targets": [k for k in range(n) if flags[k]]}
+        if _one_in(draw, cfg.onesided) and tm["targets"]:
+            tm["notask"] = sorted(set(draw(st.lists(st.sampled_from(tm["targets"]), min_size=1, max_size=3))))
+        teams.append(tm)
     workers = []
     for i in range(n_workers):
         sk = draw(st.lists(skill_s, min_size=n, max_size=n))
@@ -232,8 +238,8 @@ def model_spec(draw, cfg):
             "abs": [],
             "mw": None,
         }
-        if cfg.worker_abs and _one_in(draw, 3):
-            w["abs"] = draw(abs_list(cfg.abs_max, 4))
+        if cfg.worker_abs and _one_in(draw, cfg.abs_p):
+            w["abs"] = draw(abs_list(cfg.abs_max, cfg.abs_size))
         if facs:
             fs = draw(
                 st.lists(
@@ -256,6 +262,8 @@ def model_spec(draw, cfg):
             "targets": [k for k in range(n) if flags[k]],
             "inputs": [],
         }
+        if _one_in(draw, cfg.onesided) and wp["targets"]:
+            wp["notask"] = sorted(set(draw(st.lists(st.sampled_from(wp["targets"]), min_size=1, max_size=3))))
         if cfg.inputs and n_wps > 1 and _one_in(draw, 3):
             wp["inputs"] = [
                 k
@@ -275,8 +283,8 @@ def model_spec(draw, cfg):
                 "abs": [],
             }
         )
-        if cfg.worker_abs and _one_in(draw, 4):
-            f["abs"] = draw(abs_list(cfg.abs_max, 4))
+        if cfg.worker_abs and _one_in(draw, cfg.abs_p + 1):
+            f["abs"] = draw(abs_list(cfg.abs_max, cfg.abs_size))
 
     spec = {
         "tasks": tasks,
@@ -373,3 +381,21 @@ def assembly_form(tasks, deps, comps):
                 if a < b and b not in reach[a]:
                     deps.append([a, b, 0])
                     reach = fs_reach(spec)
+
+
+def single_task_components(spec):
+    """Profile "pairs": every component-bound, non-automatic task becomes a facility task on a component of its own
+    (flat product), so that the worker-facility pair clauses of C06/C11 apply to it."""
+    comps = []
+    has_wp = bool(spec["wps"])
+    for t in spec["tasks"]:
+        if t.get("comp") is not None and not t["auto"] and has_wp:
+            t["nf"] = True
+            comps.append({"space": 0.5, "parent": None})
+            t["comp"] = len(comps) - 1
+        else:
+            t["comp"] = None
+            t["nf"] = False
+            t["fixf"] = None
+    spec["comps"] = comps
+    return spec
